@@ -2,6 +2,9 @@ import GridVerif.Model.Proto
 import GridVerif.Model.Elem
 import GridVerif.Model.Cubic
 import GridVerif.Gen.CubicIndex
+import GridVerif.Model.CubicNp
+import GridVerif.Gen.CubicGrid
+import GridVerif.Gen.CubicCube
 
 namespace GridVerif.Driver.C13
 open GridVerif.Proto GridVerif.Cubic GridVerif.Gen.CubicIndex
@@ -163,6 +166,62 @@ def handle : List String → Option String
     let (g, tl) ← pVec pFloat rest
     if tl ≠ [] then none else
     pure ("ok " ++ sFloat (completeBell (fun i => g.getD (i - 1) 0.0) n))
+  -- ---- generated float code (Gen/CubicGrid.lean) ----
+  | "C13.gweights" :: sch :: rest => do
+    let (axes, tl) ← pMat pFloat rest
+    let (shape, tl) ← pVec pNat tl
+    if tl ≠ [] then none else
+    pure (showPy sFloats (Gen.CubicGrid.chooseWeightScheme axes sch shape))
+  | "C13.gvolume" :: rest => do
+    let (axes, tl) ← pMat pFloat rest
+    let (shape, tl) ← pVec pNat tl
+    if tl ≠ [] then none else
+    pure (showPy sFloat (Gen.CubicGrid.calculateVolume axes shape) ++ " "
+      ++ showPy sFloat (Gen.CubicGrid.calculateAlternativeVolume axes shape))
+  | "C13.gclosest" :: which :: rest => do
+    let (origin, tl) ← pVec pFloat rest
+    let (axes, tl) ← pMat pFloat tl
+    let (shape, tl) ← pVec pNat tl
+    let (pt, tl) ← pVec pFloat tl
+    if tl ≠ [] then none else
+    let a := Gen.CubicGrid.closestPoint origin axes shape 0 pt which
+    let b := Gen.CubicGrid.closestPoint origin axes shape 123456789 pt which
+    if showPy toString a != showPy toString b then pure "junk-dependent" else
+    pure (showPy toString a)
+  | "C13.gitensor" :: rest => do
+    -- the inertia tensor accumulated by the translated loop of from_molecule: with `eigh := id` and
+    -- spacing 1 the returned axes are `1.0 * itensor`
+    let (nums, tl) ← pVec pFloat rest
+    let (coords, tl) ← pMat pFloat tl
+    if tl ≠ [] then none else
+    pure (showPy (fun (r : List Float × List (List Float) × List Int) => sMat sFloat r.2.1)
+      (Gen.CubicGrid.fromMolecule (fun m => ([], m)) nums coords 1.0 1.0 true "Trapezoid"))
+  | "C13.gfrom_molecule" :: rot :: rest => do
+    let (nums, tl) ← pVec pFloat rest
+    let (coords, tl) ← pMat pFloat tl
+    match tl with
+    | sp :: ex :: tl =>
+      let sp ← pFloat sp
+      let ex ← pFloat ex
+      let (rotate, v) ← (match rot, tl with
+        | "0", [] => some (false, ([] : List (List Float)))
+        | "1", tl => (pMat pFloat tl).bind fun (m, tl) => if tl = [] then some (true, m) else none
+        | _, _ => none)
+      pure (showPy (fun (r : List Float × List (List Float) × List Int) =>
+          sFloats r.1 ++ " " ++ sMat sFloat r.2.1 ++ " " ++ sInts r.2.2)
+        (Gen.CubicGrid.fromMolecule (fun _ => ([], v)) nums coords sp ex rotate "Trapezoid"))
+    | _ => none
+  | "C13.linear" :: rest => do
+    -- interpolate(method="linear") with the multilinear cell interpolant as operator
+    let (shape, tl) ← pVec pNat rest
+    let (pts, tl) ← pMat pFloat tl
+    let (vals, tl) ← pVec pFloat tl
+    match tl with
+    | [x, y, z] =>
+      let p := ((← pFloat x), (← pFloat y), (← pFloat z))
+      pure (showPy sFloat (interpLinear multilinearCell shape pts vals p))
+    | _ => none
+  | "C13.cube_units" :: _ => pure ("ok " ++ Gen.CubicCube.summary)
   | _ => none
 
 end GridVerif.Driver.C13
